@@ -13,7 +13,7 @@ import z3
 from .ctx import CTX, OutOfSubset, PathEnd
 from .sym import (SInt, SBool, SStr, SRef, SBV, SReal, PyRaise, mk_int, mk_bool, mk_str, _zint, _zbool, zstr,
                   is_sym, ite)
-from .values import (Opaque, AbstractSeq, EnumMember, FuncVal, BoundMethod, PropertyVal, HostFn, HostModule, ClassVal, VObj,
+from .values import (Opaque, AbstractSeq, OneShotIter, EnumMember, FuncVal, BoundMethod, PropertyVal, HostFn, HostModule, ClassVal, VObj,
                      RangeVal, IterVal, VDict, VSet, VList)
 
 ITERABLE = HostFn(lambda: None, "collections.abc.Iterable")
@@ -76,7 +76,7 @@ def py_isinstance(interp, v, T):
     if T is object:
         return True
     if T is ITERABLE:
-        if isinstance(v, (VList, tuple, str, SStr, VDict, VSet, RangeVal, IterVal, AbstractSeq)):
+        if isinstance(v, (VList, tuple, str, SStr, VDict, VSet, RangeVal, IterVal, AbstractSeq, OneShotIter)):
             return True
         if isinstance(v, VObj):
             m, _ = v.cls.lookup("__iter__")
@@ -220,6 +220,8 @@ def _list(interp, args, kwargs):
     if not args:
         return VList([])
     v = args[0]
+    if isinstance(v, OneShotIter):
+        return v.take().snapshot()
     if isinstance(v, VList):
         return v.snapshot()
     items = interp.iterate(v)
@@ -435,12 +437,14 @@ def _ord(interp, args, kwargs):
     if isinstance(v, SStr):
         if not CTX.branch(z3.Length(v.t) == 1):
             raise PyRaise(TypeError("ord() expected a character"))
-        return SInt(UF["ord"](v.t))
+        return mk_int(z3.StrToCode(v.t))      # code point of the single character (SMT-LIB str.to_code)
     raise PyRaise(TypeError("ord() expected string"))
 
 
 def _iter(interp, args, kwargs):
     v = args[0]
+    if isinstance(v, OneShotIter):
+        return v
     items = interp.iterate(v)
     if items is None:
         if isinstance(v, (VList, Opaque, AbstractSeq)):
@@ -565,11 +569,13 @@ def make_host_modules(interp):
                 if m is None:
                     raise PyRaise(TypeError("object is not iterable"))
                 src = i.call(BoundMethod(m, a), [], {})
+            if isinstance(src, OneShotIter):
+                src = src.take()
             if isinstance(src, VList):
                 acc = acc.concat(src)
             else:
                 raise OutOfSubset("chain over %r" % (src,))
-        return acc
+        return OneShotIter(acc)
 
     def deepcopy_(i, args, kwargs):
         return _deepcopy(args[0])
